@@ -17,9 +17,13 @@ def run(ses):
     quick = ses.tier == "quick"
     units = ("image10q", "image11q") if quick else ("image10", "image11")
     table_of = {u: u.rstrip("q") + "s" if quick else u + "s" for u in units}
-    for unit in units:
-        records.check_unit(ses, unit, ["table", "frame"], table_of=table_of, sliced=True)
+    records.check_units(ses, units, ["table", "frame"], table_of=table_of, sliced=True)
     chunk_obligations(ses)
+    # loading does not modify the Array (its chunk table is computed once from rpc): a load cannot change what a later
+    # load — with this or any other records_per_chunk — returns
+    from pyvc.harness import run_cases
+
+    run_cases(ses, "props.c19", "case_load", [("IU2", "slice_sym", "slice_none")])
     ses.trust(*TRUST[:4], "induction schema: a closed form satisfying X(0) = init and X(j+1) - X(j) = step(j) equals the running "
                           "sum / file position of the loop (checked: initialisation and preservation)")
     ses.assume("math.ceil(n / rpc) is the exact integer ceiling: true for n, rpc < 2**53 (float division of ints is correctly "
